@@ -128,7 +128,19 @@ def over_of(s):
     return one[(k + 3) % len(one)] if len(one) > 3 else None
 
 
+def beside_of(s):
+    """for a 2.x version: the 1.x version of the legacy library that already lives in the directory (an Engine Library
+    folder after a migration holds both m.db and Database2/m.db); the freshly created 2.x library must be recognised
+    by the 2.x loader of its own, engine::v2::engine_library::load (round 5, seeded C12-6: that loader started to
+    refuse directories holding both layouts)"""
+    one = [x for x in SCHEMAS if x.startswith("schema_1_")]
+    two = [x for x in SCHEMAS if x.startswith("schema_2_")]
+    return one[(two.index(s) * 3 + 1) % len(one)] if s in two else None
+
+
 def created_script(s, form):
+    if form == "beside":
+        return ["create %s disk beside %s" % (s, beside_of(s)), "schema.dump", "db.q verify", "load2", "schema.dump", "db.q verify"]
     if form == "over":
         return ["create %s disk over %s" % (s, over_of(s)), "schema.dump", "db.q verify", "load", "schema.dump", "db.q verify"]
     if form == "mem":
@@ -152,6 +164,9 @@ def collect(schemas, refs):
         if over_of(s):
             scripts.append(created_script(s, "over"))
             keys.append(("c", s, "over"))
+        if beside_of(s):
+            scripts.append(created_script(s, "beside"))
+            keys.append(("c", s, "beside"))
     for rel in refs:
         scripts.append(ref_script(rel))
         keys.append(("r", rel))
@@ -217,6 +232,29 @@ def decide(schemas, refs, outs, all_pairs=True):
                                         "model": "expected the reloaded library's catalog dump"})
                 else:
                     dumps["c.%s.reloaded" % s] = (info2, d2)
+    hist["beside_legacy_ok"] = 0
+    for s in schemas:
+        o = outs.get(("c", s, "beside"))
+        if o is None:
+            continue
+        info, d = split_dump(o[1]) if len(o) > 1 else (None, None)
+        if o and o[0].startswith("throw"):
+            hist["beside_legacy_refused"] = hist.get("beside_legacy_refused", 0) + 1
+            continue
+        if info is None or o[0] != "ok":
+            divergences.append({"input": " ; ".join(created_script(s, "beside")), "impl": " | ".join(x[:200] for x in o),
+                                "model": "expected a created library and its catalog dump"})
+            continue
+        dumps["c.%s.beside" % s] = (info, d)
+        good = len(o) >= 6 and o[2] == "ok" and o[3] == "ok " + s and o[5] == "ok"
+        if good:
+            hist["beside_legacy_ok"] += 1
+        else:
+            violations.append(viol("beside", "a %s library created next to a legacy %s library is not verified / recognised "
+                                   "by engine::v2::engine_library::load as the version requested: verify '%s', load '%s', "
+                                   "verify after load '%s'" % (s, beside_of(s), o[2] if len(o) > 2 else "-",
+                                                               o[3] if len(o) > 3 else "-", o[5] if len(o) > 5 else "-"),
+                                   {"schema": s, "kind": "beside-legacy"}, created_script(s, "beside") + o[:6]))
     hist["over_leftover_perfdata_ok"] = 0
     for s in schemas:
         o = outs.get(("c", s, "over"))
@@ -272,6 +310,8 @@ def decide(schemas, refs, outs, all_pairs=True):
             add("same c.%s.disk c.%s.reloaded" % (s, s), "reloaded", s)
         if "c.%s.disk" % s in dumps and "c.%s.over" % s in dumps:
             add("same c.%s.disk c.%s.over" % (s, s), "over", s)
+        if "c.%s.disk" % s in dumps and "c.%s.beside" % s in dumps:
+            add("same c.%s.disk c.%s.beside" % (s, s), "beside", s)
     npre = len(lines)
     for s in schemas:
         for form in ("mem", "disk"):
@@ -306,6 +346,12 @@ def decide(schemas, refs, outs, all_pairs=True):
                                        {"schema": s, "form": form, "kind": "version-stamp"},
                                        created_script(s, form)[:2] + ["stamped: %r perf: %r" % (info["ver"], info["perf"]),
                                                                       "lean: " + ans]))
+        elif kind == "beside":
+            if ans != "ok true":
+                violations.append(viol("beside", "the catalog of a 2.x library created next to a legacy library differs from "
+                                       "the catalog of the same version created in an empty directory",
+                                       {"schema": p, "kind": "beside-legacy-catalog"},
+                                       created_script(p, "beside")[:2] + ["lean %s: %s" % (line[:80], ans[:600])]))
         elif kind == "over":
             if ans != "ok true":
                 violations.append(viol("over", "the catalog of a library created over the left-over p.db of another version "
